@@ -46,4 +46,12 @@ def run(R):
                             "stale round-1 messages in the pool (46 shuffled deliveries, leader's own input differs): all three "
                             "running processes decide, hypotheses of the theorems discharged; FIFOLimit=1 refutation of the "
                             "statement without fifo_ok")
+    # network part (closure hypotheses derived from reachability in Net.v): props/c04_live_net.py
+    try:
+        import c04_live_net
+    except ImportError:
+        c04_live_net = None
+        R.notes.append("network part of the termination proof (props/c04_live_net.py) not present in this tree")
+    if c04_live_net is not None:
+        ok = c04_live_net.run(R) and ok
     return ok
